@@ -76,10 +76,7 @@ def run(model: Model, rep: Report) -> None:
     r3.check(pairs_ok, site(dk), CM + "CMapParser", "keyword constants spell begin<x>/end<x>", why="keyword spelling changed")
     # ---------------------------------------------------------------- R4
     r4 = rep.rule("C07-R4", "DEPEND", "range expansions depend on the loop index on both sides and are inclusive", 6)
-    bf = arms2.get("ENDBFRANGE", "")
-    r4.check("foriinrange(end-start+1):x=prefix+struct.pack('>L',base+i)[-vlen:]self.cmap.add_cid2unichr(start+i,x)" in bf, site(dk), dk.qualname, "bfrange (increment form): code start + i maps to base + i for i = 0..end - start", why="changed")
-    r4.check("forcid,unicode_valueinzip(range(start,end+1),code):self.cmap.add_cid2unichr(cid,unicode_value)" in bf.replace("for(cid,unicode_value)in", "forcid,unicode_valuein"), site(dk), dk.qualname, "bfrange (array form): codes start..end inclusive paired with the array elements", why="changed")
-    r4.check("var=code[-4:]base=nunpack(var)prefix=code[:-4]vlen=len(var)" in bf and "start=nunpack(start_byte)end=nunpack(end_byte)" in bf, site(dk), dk.qualname, "the incremented part is the last (up to 4) bytes of the target; the rest is a fixed prefix", why="changed")
+    _bfrange_checks(r4, dk, arms2)
     cr = arms2.get("ENDCIDRANGE", "")
     r4.check("foriinrange(end-start+1):x=start_prefix+struct.pack('>L',start+i)[-vlen:]self.cmap.add_cid2unichr(cid+i,x)" in cr, site(dk), dk.qualname, "cidrange: code start + i maps to cid + i, inclusive", why="changed")
     gw = model.func(F + "get_widths")
@@ -89,13 +86,11 @@ def run(model: Model, rep: Report) -> None:
     s2 = "".join(unparse(gw2.node).split())
     r4.check("foriinrange(cast(int,char1),cast(int,char2)+1):widths[i]=(w,(vx,vy))" in s2 and "fori,(w,vx,vy)inenumerate(choplist(3,v)):widths[cast(int,char1)+i]=(w,(vx,vy))" in s2.replace("for(i,(w,vx,vy))in", "fori,(w,vx,vy)in"), site(gw2), gw2.qualname, "W2: ranges inclusive; array form takes (w, vx, vy) triples", why="changed")
     # ---------------------------------------------------------------- R6
-    r6 = rep.rule("C07-R6", "GUARD", "advances follow W/DW: a width found in W (also 0) wins over the default", 2)
-    cw = model.func(F + "PDFFont.char_width")
-    tests = [n for n in walk_no_nested(cw.node) if isinstance(n, ast.If) and "cid_width" in unparse(n.test)]
-    okt = bool(tests) and all(unparse(t.test).replace(" ", "") == "cid_widthisnotNone" for t in tests)
-    r6.check(okt, site(cw), cw.qualname, "a looked-up width is used whenever it is present (`is not None`), including an explicit 0", why=f"tests {[unparse(t.test) for t in tests]}: a zero width in W falls through to DW")
-    s6 = "".join(unparse(cw.node).split())
-    r6.check("cid_width=safe_float(self.widths.get(cid))" in s6 and "returnself.default_width*self.hscale" in s6, site(cw), cw.qualname, "width of a CID = W entry if present, else DW, times the glyph-space scale", why="changed")
+    char_width_rule(model, rep, "C07-R6")
+    # Type0: the descendant dictionary handed to the CID font is this font's own copy
+    from .c12 import doc_mutation_rule
+
+    doc_mutation_rule(model, rep, "C07-R7", only=("pdfminer.pdfinterp.PDFResourceManager.get_font", "pdfminer.pdffont.PDFCIDFont.__init__"), min_instances=1)
     # ---------------------------------------------------------------- R5
     r5 = rep.rule("C07-R5", "BIND", "vertical metrics: DW2 = [vy w]; W2 entries become (w, (vx, vy)); writing mode comes from the CMap", 3)
     ci = model.func(F + "PDFCIDFont.__init__")
@@ -103,3 +98,37 @@ def run(model: Model, rep: Report) -> None:
     r5.check("self.vertical=self.cmap.is_vertical()" in s3 and "self.cmap:CMapBase=self.get_cmap_from_spec(spec,strict)" in s3, site(ci), ci.qualname, "the font is vertical iff its encoding CMap is", why="changed")
     r5.check("vy,w=resolve1(spec.get('DW2',[880,-1000]))" in s3.replace("(vy,w)", "vy,w") and "self.default_disp=(None,vy)" in s3 and "default_width=w" in s3, site(ci), ci.qualname, "DW2 = [vy w] with default [880 -1000]", why="changed")
     r5.check("self.disps={cid:(vx,vy)for(cid,(_,(vx,vy)))inwidths2.items()}" in s3.replace("forcid,(_,(vx,vy))in", "for(cid,(_,(vx,vy)))in") and "cid:wfor(cid,(w,_))inwidths2.items()" in s3.replace("forcid,(w,_)in", "for(cid,(w,_))in") and "default_width=spec.get('DW',1000)" in s3, site(ci), ci.qualname, "W2 gives per-CID displacement (vx, vy) and width; horizontal fonts use W and DW (default 1000)", why="changed")
+
+
+def _arms(model: Model):
+    dk = model.func(CM + "CMapParser.do_keyword")
+    arms2: Dict[str, str] = {}
+    for n in dk.node.body:  # type: ignore[attr-defined]
+        if isinstance(n, ast.If) and isinstance(n.test, ast.Compare) and unparse(n.test.left) == "token" and isinstance(n.test.ops[0], ast.Is):
+            arms2[unparse(n.test.comparators[0]).replace("self.KEYWORD_", "")] = "".join(unparse(ast.Module(body=n.body, type_ignores=[])).split())
+    return dk, arms2
+
+
+def _bfrange_checks(r4, dk, arms2) -> None:
+    bf = arms2.get("ENDBFRANGE", "")
+    r4.check("foriinrange(end-start+1):x=prefix+struct.pack('>L',base+i)[-vlen:]self.cmap.add_cid2unichr(start+i,x)" in bf, site(dk), dk.qualname, "bfrange (increment form): code start + i maps to base + i for i = 0..end - start", why="changed")
+    r4.check("forcid,unicode_valueinzip(range(start,end+1),code):self.cmap.add_cid2unichr(cid,unicode_value)" in bf.replace("for(cid,unicode_value)in", "forcid,unicode_valuein"), site(dk), dk.qualname, "bfrange (array form): codes start..end inclusive paired with the array elements", why="changed")
+    r4.check("var=code[-4:]base=nunpack(var)prefix=code[:-4]vlen=len(var)" in bf and "start=nunpack(start_byte)end=nunpack(end_byte)" in bf, site(dk), dk.qualname, "the incremented part is the last (up to 4) bytes of the target; the rest is a fixed prefix", why="changed")
+
+
+def tounicode_ranges_rule(model: Model, rep: Report, rid: str) -> None:
+    """ToUnicode CMaps of simple fonts are parsed by the same CMapParser: the bfchar/bfrange expansions (shared with C07-R4)."""
+    r = rep.rule(rid, "DEPEND", "ToUnicode parsing: bfrange expansions are inclusive and depend on the loop index on both sides; bfchar maps the code to its target", 4)
+    dk, arms2 = _arms(model)
+    _bfrange_checks(r, dk, arms2)
+    r.check("self.cmap.add_cid2unichr(nunpack(cid),code)" in arms2.get("ENDBFCHAR", ""), site(dk), dk.qualname, "bfchar: code -> target", why="changed")
+
+
+def char_width_rule(model: Model, rep: Report, rid: str) -> None:
+    r6 = rep.rule(rid, "GUARD", "advances follow the width tables: a width found in Widths/W (also 0) wins over the default", 2)
+    cw = model.func(F + "PDFFont.char_width")
+    tests = [n for n in walk_no_nested(cw.node) if isinstance(n, ast.If) and "cid_width" in unparse(n.test)]
+    okt = bool(tests) and all(unparse(t.test).replace(" ", "") == "cid_widthisnotNone" for t in tests)
+    r6.check(okt, site(cw), cw.qualname, "a looked-up width is used whenever it is present (`is not None`), including an explicit 0", why=f"tests {[unparse(t.test) for t in tests]}: a zero width in the table falls through to the default width")
+    s6 = "".join(unparse(cw.node).split())
+    r6.check("cid_width=safe_float(self.widths.get(cid))" in s6 and "returnself.default_width*self.hscale" in s6, site(cw), cw.qualname, "width of a code/CID = table entry if present, else the default, times the glyph-space scale", why="changed")
